@@ -19,6 +19,10 @@ class Unsupported(Exception):
     pass
 
 
+class PathDead(Exception):
+    """the current path ends here (an obligation saying it is unreachable has been recorded)"""
+
+
 # ---------------------------------------------------------------- symbolic values
 class IntV:
     def __init__(self, z, none=None):
@@ -129,7 +133,7 @@ def truth(v):
         return nonempty(v)
     if isinstance(v, StrV):
         return BoolVal(bool(v.v))
-    if isinstance(v, (MgrV, ObjV)):
+    if isinstance(v, (MgrV, ObjV, ExcClassV)):
         return BoolVal(True)
     raise Unsupported(f'truth of {type(v).__name__}')
 
@@ -138,6 +142,16 @@ def nonempty(v):
     """truth value of a dict/set: a ghost Boolean tied to membership by (has[k] -> nonempty); emptiness implies no
     member. The witness direction (nonempty -> some member) is given by `next(iter(d))`."""
     return v._ne
+
+
+def pred_at_abs(ex, pred, var, y, p, saved):
+    """value of a one-argument predicate closure at a term"""
+    p.env[var] = IntV(y)
+    try:
+        return truth(ex.ev(pred.body[0].value, p))
+    finally:
+        p.env.clear()
+        p.env.update(saved)
 
 
 class Raise:
@@ -204,6 +218,8 @@ class Exec:
         self.entry_mgrs = {}
         self.side_paths = []
         self.assumed_builtins = set()
+        self.finder = None
+        self.inlined = set()
 
     # ------------------------------------------------------------------ obligations
     def oblige(self, p, name, goal, line=None):
@@ -229,6 +245,13 @@ class Exec:
         else:
             p.pc.append(fact)
 
+    def refresh_ne(self, v, p):
+        """new truth-value ghost of a set after a removal: a set with a member is non-empty (meaning of truthiness)"""
+        from z3 import ForAll
+        v._ne = fresh('nonempty', B)
+        x = Int(f'x!ne{next(M._cnt)}')
+        p.pc.append(ForAll([x], Implies(v.has[x], v._ne), patterns=[v.has[x]]))
+
     def name_it(self, p, z, hint='k'):
         """give a compound term a name (fresh constant + equation) so that array stores stay pattern-friendly"""
         if z.num_args() == 0:
@@ -252,6 +275,13 @@ class Exec:
             if isinstance(base, ObjV) and e.attr in base.attrs and isinstance(base.attrs[e.attr], MgrV):
                 return base.attrs[e.attr]
         return None
+
+    def local_names(self):
+        if not hasattr(self, '_locals'):
+            self._locals = {t.id for n in ast.walk(self.fn) if isinstance(n, (ast.Assign, ast.AugAssign, ast.AnnAssign))
+                            for tt in (n.targets if isinstance(n, ast.Assign) else [n.target]) for t in ast.walk(tt)
+                            if isinstance(t, ast.Name)}
+        return self._locals
 
     # ------------------------------------------------------------------ expressions
     def ev(self, e, p):
@@ -282,6 +312,10 @@ class Exec:
         if e.id in ('ValueError', 'TypeError', 'KeyError', 'AssertionError', 'RuntimeError', '_NeedsReordering',
                     'NotImplementedError', 'Exception'):
             return ExcClassV(e.id)
+        if e.id in self.local_names():
+            # read of a local that is not bound on this path: UnboundLocalError, must be unreachable
+            self.oblige(p, f'unreachable:UnboundLocalError({e.id})@{e.lineno}', BoolVal(False), e.lineno)
+            raise PathDead()
         raise Unsupported(f'name {e.id}@{e.lineno}')
 
     def ev_Tuple(self, e, p):
@@ -389,6 +423,10 @@ class Exec:
         if isinstance(a, (NameV, IntV)) and isinstance(b, (NameV, IntV)):
             # comparison with None across kinds
             return And(is_none(a), is_none(b))
+        objs = (DictV, SetV, ListV, MgrV, ObjV, FieldV, TupV, StrV)
+        if (isinstance(a, objs) and isinstance(b, IntV)) or (isinstance(b, objs) and isinstance(a, IntV)):
+            # an object is never None / never equal to an int
+            return BoolVal(False)
         raise Unsupported(f'eq {type(a).__name__} {type(b).__name__}')
 
     def contains(self, key, container, p, line):
@@ -673,8 +711,10 @@ class Exec:
     # ------------------------------------------------------------------ calls
     def ev_Call(self, e, p):
         f = e.func
-        if e.keywords and not all(k.arg for k in e.keywords):
-            raise Unsupported(f'**kwargs@{e.lineno}')
+        if (e.keywords and not all(k.arg for k in e.keywords)) or any(isinstance(a, ast.Starred) for a in e.args):
+            # f(x, *args, **kwargs): only for callable *values* whose contract treats the rest as opaque
+            if not (isinstance(f, ast.Name) and isinstance(p.env.get(f.id), ObjV) and p.env[f.id].cls == 'callable'):
+                raise Unsupported(f'*args/**kwargs@{e.lineno}')
         # builtins
         if isinstance(f, ast.Name):
             b = getattr(self, 'builtin_' + f.id, None)
@@ -689,8 +729,8 @@ class Exec:
         if isinstance(f, ast.Attribute) and isinstance(f.value, ast.Name) and f.value.id in ('logger', 'log', 'warnings', 'logging'):
             return NONE()
         qual, recv = self.resolve(f, p, e.lineno)
-        args = [self.ev(a, p) for a in e.args]
-        kwargs = {k.arg: self.ev(k.value, p) for k in e.keywords}
+        args = [self.ev(a, p) for a in e.args if not isinstance(a, ast.Starred)]
+        kwargs = {k.arg: self.ev(k.value, p) for k in e.keywords if k.arg is not None}
         if recv is not None:
             args = [recv] + args
         return self.call_contract(qual, args, kwargs, p, e)
@@ -749,6 +789,12 @@ class Exec:
         return IntV(z)
 
     def builtin_len(self, e, p):
+        r = self._len(e, p)
+        if isinstance(r, IntV) and not z3.is_int_value(r.z):
+            self.assume(p, r.z >= 0)      # a length is never negative
+        return r
+
+    def _len(self, e, p):
         a = e.args[0]
         if isinstance(a, ast.Attribute):
             mv = self.mgr_of_expr(a.value, p)
@@ -797,8 +843,78 @@ class Exec:
             v = self.ev(e.args[0], p)
             if isinstance(v, SetV):
                 return v.copy()
+            if isinstance(v, ObjV) and v.cls == 'mapabs':
+                return self.set_of_mapabs_filter(v, p, e.lineno)
             raise Unsupported('set(x)')
         return SetV(K(I, BoolVal(False)))
+
+    def builtin_filter(self, e, p):
+        """`filter(pred, xs)` is kept lazy: ('filter', closure, iterable)"""
+        f, xs = self.ev(e.args[0], p), e.args[1]
+        if not (isinstance(f, ObjV) and f.cls == 'closure'):
+            raise Unsupported('filter with non-closure')
+        return ObjV('filter', dict(pred=f, src=xs))
+
+    def builtin_map(self, e, p):
+        f = e.args[0]
+        src = self.ev(e.args[1], p)
+        if not (isinstance(f, ast.Name) and f.id == 'abs' and isinstance(src, ObjV) and src.cls == 'filter'):
+            raise Unsupported('map idiom')
+        return ObjV('mapabs', dict(src=src))
+
+    def set_of_mapabs_filter(self, v, p, line):
+        """idiom `set(map(abs, filter(pred, roots)))`: the set of |x| for the x in roots that satisfy pred. Modelled
+        through its two consequences (assumed builtin semantics): membership implies the predicate for some root with that
+        absolute value; every root satisfying the predicate has its absolute value in the set."""
+        from z3 import ForAll, Exists
+        flt = v.attrs['src']
+        pred = flt.attrs['pred'].attrs['node']
+        src_e = flt.attrs['src']
+        # the predicate must be `not self._ref[abs(u)]`-shaped: evaluate its body symbolically on a bound variable
+        if len(pred.body) != 1 or not isinstance(pred.body[0], ast.Return) or len(pred.args.args) != 1:
+            raise Unsupported('filter predicate shape')
+        var = pred.args.args[0].arg
+        y = Int(f'y!{next(M._cnt)}')
+        has = fresh('fset', ArraySort(I, B))
+        saved = dict(p.env)
+        sq = getattr(self, 'qmode', None)
+
+        def pred_at(term):
+            p.env[var] = IntV(term)
+            try:
+                return truth(self.ev(pred.body[0].value, p))
+            finally:
+                p.env.clear(); p.env.update(saved)
+        srcv = self.ev(src_e, p)
+        if isinstance(srcv, FieldV) and srcv.attr == '_ref':
+            S = p.mgrs[srcv.mkey]
+            self.qmode = ([y], [S.dom[y]], has[y])
+            try:
+                py = pred_at(y)
+            finally:
+                self.qmode = sq
+            # keys of _ref are node ids (positive): abs is the identity on them
+            p.pc.append(ForAll([y], has[y] == And(S.dom[y], py), patterns=[has[y]]))
+            self.assumed_builtins.add('set(map(abs, filter(pred, d))) over the keys of a dict = {k in d : pred(k)} for positive keys')
+            r = SetV(has)
+            self.refresh_ne(r, p)
+            return r
+        if isinstance(srcv, (SetV, ListV)):
+            inside = (lambda t: srcv.has[t]) if isinstance(srcv, SetV) else None
+            if inside is None:
+                raise Unsupported('filter over list')
+            g_ = [y >= 0, Or(inside(y), inside(-y))]
+            self.qmode = ([y], g_, has[y])
+            try:
+                py = pred_at(y)       # the predicate reads its argument through abs(): evaluated at y = |x|
+            finally:
+                self.qmode = sq
+            p.pc.append(ForAll([y], Implies(has[y], And(*g_, py)), patterns=[has[y]]))
+            self.assumed_builtins.add('set(map(abs, filter(pred, roots))) = {|x| : x in roots, pred(x)} (membership direction only)')
+            r = SetV(has)
+            self.refresh_ne(r, p)
+            return r
+        raise Unsupported(f'filter source@{line}')
 
     def builtin_sorted(self, e, p):
         """builtin (assumed, listed in the trusted base): sorted(set of ints) is the strictly increasing list of
@@ -871,6 +987,24 @@ class Exec:
                     r1 = self.name_it(p, If(had, old.items[1].z, lo_), 'sd')
                     r2 = self.name_it(p, If(had, old.items[2].z, hi_), 'sd')
                     return TupV([IntV(r0), IntV(r1, r1 == 0), IntV(r2, r2 == 0)])
+                if meth == 'pop' and fld == '_succ' and len(args) == 1:
+                    kz = self.name_it(p, zint(args[0], self, p), 'del')
+                    self.oblige(p, f'keyerror:_succ.pop@{e.lineno}', S.dom[kz], e.lineno)
+                    self.assume(p, S.dom[kz])
+                    old = S.copy()
+                    ret = TupV([IntV(old.lvl[kz]), IntV(old.lo[kz], old.lo[kz] == 0), IntV(old.hi[kz], old.hi[kz] == 0)])
+                    self.delete_node(S, old, kz, p, e.lineno)
+                    return ret
+                if meth == 'pop' and fld == '_pred' and len(args) == 1:
+                    kf = self.name_it(p, self.as_fork(args[0], p), 'fk')
+                    self.oblige(p, f'keyerror:_pred.pop@{e.lineno}', S.ph[kf], e.lineno)
+                    r = IntV(S.pv[kf])
+                    S.ph = Store(S.ph, kf, False)
+                    return r
+                if meth == 'pop' and fld == '_ref' and len(args) == 1:
+                    kz = zint(args[0], self, p)
+                    # `_ref` and `_succ` have one domain in the model; the entry disappears with the node
+                    return IntV(S.ref[kz])
                 if meth == 'pop' and fld == '_pred' and len(args) == 2:
                     kf = self.name_it(p, self.as_fork(args[0], p), 'fk')
                     S.ph = Store(S.ph, kf, False)
@@ -904,6 +1038,20 @@ class Exec:
             if isinstance(r, NameV):
                 return NameV(r.z, Not(v.has[kz]))
             raise Unsupported('dict.get of bool')
+        if isinstance(v, SetV) and meth == 'remove' and len(args) == 1:
+            kz = zint(args[0], self, p)
+            self.oblige(p, f'keyerror:set.remove@{e.lineno}', v.has[kz], e.lineno)
+            v.has = Store(v.has, self.name_it(p, kz, 'sk'), False)
+            self.refresh_ne(v, p)
+            return NONE()
+        if isinstance(v, SetV) and meth == 'pop' and not args:
+            # an arbitrary member (the caller established non-emptiness: KeyError otherwise)
+            self.oblige(p, f'keyerror:set.pop-from-empty@{e.lineno}', nonempty(v), e.lineno)
+            x = fresh('popped')
+            self.assume(p, v.has[x])
+            v.has = Store(v.has, x, False)
+            self.refresh_ne(v, p)
+            return IntV(x)
         if isinstance(v, SetV) and meth == 'add' and len(args) == 1:
             kz = args[0].z if v.kkind == 'name' else zint(args[0], self, p)
             v.has = Store(v.has, self.name_it(p, kz, 'sk'), True)
@@ -932,6 +1080,8 @@ class Exec:
             if n not in bound:
                 if kind.startswith('opt'):
                     bound[n] = NONE()
+                elif kind == 'opaque':
+                    bound[n] = ObjV('opaque')
                 elif kind == 'bool=False':
                     bound[n] = BoolV(BoolVal(False))
                 else:
@@ -1062,7 +1212,10 @@ class Exec:
                     nxt.append(p)
                     continue
                 self.side_paths = []
-                res = self.stmt(st, p)
+                try:
+                    res = self.stmt(st, p)
+                except PathDead:
+                    res = []
                 nxt.extend(res)
                 nxt.extend(self.side_paths)
                 self.side_paths = []
@@ -1231,6 +1384,25 @@ class Exec:
                                                If(A[lvl_], qfar(old, hi_), qfar(old, lo_)))), Store(old.qfa, kz, True))
         S.hl = If(isnew, Store(old.hl, kz, Or(lvl_ == HL, old.hl[al], old.hl[ah])), Store(old.hl, kz, False))
 
+    def delete_node(self, S, old, kz, p, line):
+        """Engine rule for removing a `_succ` entry (DESIGN 2.4): ghost in-degree of the children decreases by one per
+        edge. The two facts asserted here are the *meaning* of the ghost in-degree (modelling axioms, listed in the
+        trusted base): the target of a stored edge has in-degree >= 1 (>= 2 if both edges of the node point to it), and a
+        node with in-degree 0 is the child of no stored node."""
+        u_ = Int('u!del')
+        lo_, hi_ = old.lo[kz], old.hi[kz]
+        al, ah = absz(lo_), absz(hi_)
+        from z3 import ForAll
+        self.assume(p, And(old.indeg[al] >= 1, old.indeg[ah] >= 1, Implies(al == ah, old.indeg[ah] >= 2)))
+        self.assume(p, Implies(old.indeg[kz] == 0,
+                               ForAll([u_], Implies(And(old.dom[u_], u_ > 1), And(absz(old.lo[u_]) != kz, old.hi[u_] != kz)),
+                                      patterns=[old.dom[u_]])))
+        self.assumed_builtins.add('meaning of the ghost in-degree at node deletion (stored edge => indeg >= 1; indeg = 0 => no stored parent)')
+        S.dom = Store(old.dom, kz, False)
+        S.nsucc = old.nsucc - 1
+        i1 = Store(old.indeg, al, old.indeg[al] - 1)
+        S.indeg = Store(i1, ah, i1[ah] - 1)
+
     def st_If(self, st, p):
         c = simplify(truth(self.ev(st.test, p)))
         sides = list(self.side_paths)
@@ -1338,6 +1510,11 @@ class Exec:
         ph_ = p.fork()
         for v in spec.get('modifies', []):
             ph_.env[v] = IntV(fresh(v))
+        for v in spec.get('modifies_sets', []):
+            ph_.env[v] = SetV(fresh(v + '_has', ArraySort(I, B)))
+            self.refresh_ne(ph_.env[v], ph_)
+        for key, fields in spec.get('modifies_mgr', []):
+            ph_.mgrs[key] = State(base=ph_.mgrs[key], modifies=fields)
         ctxh = Ctx(mgrs=ph_.mgrs, env0=entry_env, env=ph_.env, uses=self.c.uses, ex=self, path=ph_, entry=self.entry_mgrs)
         for _, g in spec['inv'](ctxh):
             ph_.pc.append(g)
@@ -1413,57 +1590,78 @@ class Exec:
 
     # ---- with: context managers are inlined (enter / body / exit with exception suppression) ------------------
     def st_With(self, st, p):
-        if len(st.items) != 1:
-            raise Unsupported('with: several items')
-        item = st.items[0]
-        call = item.context_expr
+        """context managers of the repository are inlined: the real bodies of __init__/__enter__/__exit__ are executed
+        (they are small and loop-free; they are also verified separately against explicit contracts)."""
+        if len(st.items) != 1 or st.items[0].optional_vars is not None:
+            raise Unsupported('with: several items / as')
+        call = st.items[0].context_expr
         if not (isinstance(call, ast.Call) and isinstance(call.func, ast.Name)):
             raise Unsupported('with: expression')
         cls = f'{self.module}.{call.func.id}'
-        init, enter, exit_ = f'{cls}.__init__', f'{cls}.__enter__', f'{cls}.__exit__'
-        for q_ in (init, enter, exit_):
-            if q_ not in self.reg:
-                raise Unsupported(f'with {cls}: no contract for {q_}')
         obj = ObjV(cls, {})
         args = [self.ev(a, p) for a in call.args]
-        self.call_contract_obj(init, obj, args, p, call)
-        self.call_contract_obj(enter, obj, [], p, call)
         sides = list(self.side_paths)
         self.side_paths = []
-        body = self.run_block(st.body, [p])
-        self.side_paths = sides
+        cur = [q for q, _ in self.inline(f'{cls}.__init__', obj, args, p)]
+        cur = [q for q0 in cur for q, _ in self.inline(f'{cls}.__enter__', obj, [], q0)]
+        body = self.run_block(st.body, cur)
         out = []
         for q in body:
             if q.status == 'raise':
-                exc = ExcClassV(q.exc)
+                exc, ln, frm = q.exc, q.line, getattr(q, 'exc_from', None)
                 q.status = 'run'
-                swallow = self.call_contract_obj(exit_, obj, [exc, NONE(), NONE()], q, call)
-                sw = simplify(truth(swallow))
-                if is_false(sw):
-                    q.status = 'raise'
-                    out.append(q)
-                elif is_true(sw):
-                    q.exc = None
-                    out.append(q)
-                else:
-                    q1 = q.fork(sw)
-                    q1.exc = None
-                    q2 = q.fork(Not(sw))
-                    q2.status, q2.exc, q2.line = 'raise', q.exc, q.line
-                    out += [q1, q2]
+                for q2, sw in self.inline(f'{cls}.__exit__', obj, [ExcClassV(exc), NONE(), NONE()], q):
+                    t = simplify(truth(sw))
+                    if is_true(t):
+                        q2.exc = None
+                        out.append(q2)
+                    elif is_false(t):
+                        q2.status, q2.exc, q2.line, q2.exc_from = 'raise', exc, ln, frm
+                        out.append(q2)
+                    else:
+                        qa = q2.fork(t)
+                        qa.exc = None
+                        qb = q2.fork(Not(t))
+                        qb.status, qb.exc, qb.line, qb.exc_from = 'raise', exc, ln, frm
+                        out += [qa, qb]
             else:
                 st_, val = q.status, q.value
                 q.status = 'run'
-                self.call_contract_obj(exit_, obj, [NONE(), NONE(), NONE()], q, call)
-                q.status, q.value = st_, val
-                out.append(q)
+                for q2, _ in self.inline(f'{cls}.__exit__', obj, [NONE(), NONE(), NONE()], q):
+                    q2.status, q2.value = st_, val
+                    out.append(q2)
+        self.side_paths = sides
         return out
 
-    def call_contract_obj(self, qual, obj, args, p, e):
-        """call a method of a modelled object whose contract is *executable on ObjV* (small, verified bodies)."""
-        c = self.reg[qual]
-        self.calls.append(qual)
-        return c.post(Ctx(obj=obj, args=args, path=p, ex=self, mgrs=p.mgrs))
+    def inline(self, qual, recv, args, p):
+        """execute the real body of a small method on path p; returns [(path, return value)]"""
+        if self.finder is None:
+            raise Unsupported(f'inline {qual}: no source finder')
+        try:
+            fn = self.finder(qual)[0]
+        except KeyError:
+            raise Unsupported(f'inline {qual}: not found')
+        params = [a.arg for a in fn.args.args]
+        if len(params) != 1 + len(args):
+            raise Unsupported(f'inline {qual}: arity')
+        saved = p.env
+        p.env = {params[0]: recv}
+        p.env.update(zip(params[1:], args))
+        body = fn.body
+        if body and isinstance(body[0], ast.Expr) and isinstance(body[0].value, ast.Constant):
+            body = body[1:]
+        self.inlined.add(qual)
+        res = self.run_block(body, [p])
+        out = []
+        for q in res:
+            if q.status in ('return', 'run'):
+                val = q.value if q.status == 'return' and q.value is not None else NONE()
+                q.status, q.value = 'run', None
+                q.env = dict(saved)
+                out.append((q, val))
+            else:
+                raise Unsupported(f'inline {qual}: raises')
+        return out
 
     def st_Try(self, st, p):
         if st.orelse:
